@@ -143,6 +143,7 @@ def evaluate(ctx, name, cfg, script, res, cases, impl_outs, drain):
             ctx.notes.setdefault("unexpected_exceptions", []).append(f"{ex[0]}: {ex[1]!r}")
     cases.append(pu.obs.lines)
     impl_outs.append(pu.obs.outs)
+    ctx.__dict__.setdefault("flow_inputs", {})[id(pu.obs.lines)] = (cfg, script)
     fc.note_hyp(ctx, pu.obs)
     nontrivial = so.at_limit > 0 and (so.retransmissions > 0 or res["unblocked"])
     ctx.count((name, repr(cfg), repr(script)), nontrivial)
@@ -547,6 +548,40 @@ def main(tier):
     thorough = tier == "thorough"
     r = rng.make("c06")
     cases, impl_outs = [], []
+
+    def search():
+        """failing-input search (a correspondence / obligation broke, no witness yet).  Every packet of every
+        correspondence run is already judged by the wire oracle (SendOracle), the ledger and - in drained runs - the
+        progress oracle.  Order: (0) the inputs on which model and implementation disagreed, re-run DRAINED (every
+        limit raised, everything acknowledged: progress oracle) and followed by retransmission pressure (loss, timer);
+        (1) the exhaustive enumeration unstrided on more boundary configurations; (2) more PRNG schedules.
+        Stops at the first concrete witness, 60 s at most."""
+        import time
+        t0 = time.time()
+
+        def tryit(name, cfg, script, drain):
+            res = fc.run_puppet(cfg, script, drain=drain)
+            evaluate(ctx, name, cfg, script, res, [], [], drain)
+            return bool(ctx.witnesses) or time.time() - t0 > 60
+
+        for cfg, script in getattr(ctx, "disagreeing_inputs", [])[:200]:
+            script = [tuple(a) for a in script]
+            for variant, drain in ((script, True), (script + [("lose",), ("adv", 0.4), ("timer",), ("tx",)], True),
+                                   (script + [("tx",), ("ackall",), ("adv", 0.1), ("tx",)], False)):
+                if tryit("search-disagreeing", cfg, variant, drain):
+                    return
+        for cfg, script in exhaustive_cases(3, [(d, m, b) for d in (0, 1, 2, 3) for m in (0, 1, 2, 3) for b in (0, 1, 2)]):
+            if tryit("search", cfg, script, True):
+                return
+        rs = rng.make("c06-search")
+        for i in range(3000):
+            cfg = random_cfg(rs, 7000 + i)
+            tp = {"max_data": cfg["p_opts"]["max_data"], "bidi_remote": cfg["p_opts"]["max_stream_data"],
+                  "bidi_local": cfg["p_opts"]["max_stream_data"], "uni": cfg["p_opts"]["max_stream_data"],
+                  "streams_bidi": cfg["p_streams"][0], "streams_uni": cfg["p_streams"][1]}
+            if tryit("search", cfg, random_script(rs, cfg["e_is_client"], tp, rs.choice([20, 60])), rs.random() < 0.5):
+                return
+    ctx.search = search
     # 1. exhaustive small scope: every sequence of k actions for boundary limits
     configs = [(0, 0, 0), (1, 1, 1), (2, 3, 1), (3, 2, 2)] if not thorough else \
         [(d, m, b) for d in (0, 1, 2, 3) for m in (0, 1, 2, 3) for b in (0, 1, 2)]
